@@ -310,7 +310,14 @@ def m3(ctx, al, count):
             arg = tuple(x) if rng.random() < 0.3 else list(x)
             if rng.random() < 0.2:
                 arg = [float(v) for v in x]
-            e, f = L.call(al.lpc.kautocor if kind == "ka" else al.lpc.kcovar, arg, order)
+            fn = al.lpc.kautocor if kind == "ka" else al.lpc.kcovar
+            if len(recs) % 2:
+                # the same block has been analysed before at other orders (higher first): an answer depends on the
+                # block and the order asked, not on what was asked earlier
+                for other in (order + 2, order + 1):
+                    if other <= (n + 1 if kind == "ka" else n - 1):
+                        L.call(fn, list(arg), other)
+            e, f = L.call(fn, arg, order)
             inp = x
         info = {"kind": kind, "input": list(inp), "order": order, "raised": e}
         if e != "none":
